@@ -398,3 +398,157 @@ Proof.
   pose proof (mon_run_ok ops [] [] (Forall2_nil _) (NoDup_nil _) H) as E.
   unfold mctrl in *. rewrite E. reflexivity.
 Qed.
+
+(** ---- step-level statements used by Props/C16.v ---- *)
+Lemma unseeded_bootstrap c : core_inv c -> c_seeded c = false -> c_state c = Bootstrap.
+Proof.
+  intros (_ & _ & Hn & _) Hf. destruct (cc_state_eqb (c_state c) Bootstrap) eqn:E.
+  - destruct (c_state c); cbn in E; congruence.
+  - rewrite Hn in Hf; [discriminate|]. intro Hc. rewrite Hc in E. discriminate.
+Qed.
+
+Lemma floor_until_rtt_step s now i :
+  r_ewma (k_rtt s) = fzero -> rtt_sample_present (i_rtt i) = false ->
+  let s' := link_step s now i in
+  r_ewma (k_rtt s') = fzero /\ c_state (k_core s') = Bootstrap /\ c_target (k_core s') = MIN_TARGET_BPS.
+Proof.
+  intros H0 Hp. cbv zeta.
+  destruct (link_step_shape s now i) as [Er Hshape]. cbv zeta in Er, Hshape.
+  rewrite pre_tick_rtt_no_sample in Er, Hshape by exact Hp.
+  split; [rewrite Er; exact H0|].
+  destruct Hshape as [(_ & Ec & _)|(Ei & _)].
+  - rewrite Ec. split; reflexivity.
+  - rewrite (rtt_invalid_zero _ H0) in Ei. discriminate.
+Qed.
+
+Lemma bootstrap_floor s : core_inv (k_core s) -> c_state (k_core s) = Bootstrap -> c_target (k_core s) = MIN_TARGET_BPS.
+Proof. intros (_ & Hb & _) H. apply Hb, H. Qed.
+
+Lemma seeded_iff s : core_inv (k_core s) -> (c_seeded (k_core s) = true <-> c_state (k_core s) <> Bootstrap).
+Proof.
+  intros (_ & Hb & Hn & _). split.
+  - intros Hs Hc. destruct (Hb Hc) as [_ Hf]. congruence.
+  - exact Hn.
+Qed.
+
+Lemma lowered_only_by s now i :
+  core_inv (k_core s) ->
+  let s' := link_step s now i in
+  let t := c_target (k_core s) in let t' := c_target (k_core s') in let obs := observed_bps i in
+  t' < t ->
+  (c_state (k_core s') = BackingOff /\ t * 850 / 1000 <= t' /\ Z.min obs t <= t' /\
+     t' <= Z.max MIN_TARGET_BPS (Z.max (t * 850 / 1000) (Z.min obs t))) \/
+  (c_state (k_core s') = Drain /\ c_state (k_core s) <> Drain /\ t' = Z.max MIN_TARGET_BPS (t * 750 / 1000)) \/
+  (c_state (k_core s') = Bootstrap /\ c_state (k_core s) <> Bootstrap /\
+     rtt_invalid (pre_tick_rtt s now i) = true).
+Proof.
+  intros Hinv. cbv zeta. intro Hlt.
+  pose proof Hinv as (Hrange & Hboot & Hnboot & _).
+  pose proof (f64_to_u64_range (i_bps i)) as Hobs. fold (observed_bps i) in Hobs.
+  destruct (link_step_shape s now i) as [_ Hshape]. cbv zeta in Hshape.
+  destruct Hshape as [(Ei & Ec & _)|(_ & (ns & md & fr & Hns & Ec) & _)]; rewrite Ec in *; cbn [c_target c_state] in *.
+  - right. right. split; [reflexivity|]. split; [|exact Ei].
+    intro Hb. destruct (Hboot Hb) as [Ht _]. lia.
+  - destruct (Bool.bool_dec (c_seeded (k_core s)) true) as [Hsd|Hsd]; [|apply not_true_is_false in Hsd].
+    + destruct (new_target_lowered (k_core s) ns md (observed_bps i) Hsd Hrange (proj1 Hobs) Hlt)
+        as [(-> & B)|(-> & B)]; [left|right; left]; (split; [reflexivity|exact B]).
+    + exfalso. pose proof (unseeded_bootstrap _ Hinv Hsd) as Hb.
+      destruct (Hboot Hb) as [Ht _].
+      pose proof (new_target_range (k_core s) ns md (observed_bps i)). lia.
+Qed.
+
+Lemma lowered_only_by_wf s now i :
+  core_inv (k_core s) -> rtt_stays_valid s now i = true ->
+  let s' := link_step s now i in
+  let t := c_target (k_core s) in let t' := c_target (k_core s') in let obs := observed_bps i in
+  t' < t ->
+  (c_state (k_core s') = BackingOff /\ t * 850 / 1000 <= t' /\ Z.min obs t <= t' /\
+     t' <= Z.max MIN_TARGET_BPS (Z.max (t * 850 / 1000) (Z.min obs t))) \/
+  (c_state (k_core s') = Drain /\ c_state (k_core s) <> Drain /\ t' = Z.max MIN_TARGET_BPS (t * 750 / 1000)).
+Proof.
+  intros Hinv Hv. cbv zeta. intro Hlt.
+  destruct (lowered_only_by s now i Hinv Hlt) as [H|[H|(_ & Hnb & Ei)]]; [left; exact H|right; exact H|].
+  exfalso. unfold rtt_stays_valid in Hv. rewrite Ei in Hv. cbn in Hv. rewrite orb_false_r in Hv.
+  apply Hnb. destruct (c_state (k_core s)); cbn in Hv; congruence.
+Qed.
+
+Lemma backoff_honest s now i :
+  core_inv (k_core s) -> c_seeded (k_core s) = true ->
+  let s' := link_step s now i in
+  let t := c_target (k_core s) in let t' := c_target (k_core s') in
+  c_state (k_core s') = BackingOff ->
+  t' <= t /\ Z.min (observed_bps i) t <= t' /\ t * 850 / 1000 <= t'.
+Proof.
+  intros (Hrange & _) Hsd. cbv zeta. intro Hst.
+  destruct (link_step_shape s now i) as [_ Hshape]. cbv zeta in Hshape.
+  destruct Hshape as [(_ & Ec & _)|(_ & (ns & md & fr & Hns & Ec) & _)]; rewrite Ec in *; cbn [c_target c_state] in *.
+  - discriminate.
+  - subst ns. apply new_target_backoff; assumption.
+Qed.
+
+Lemma growth_bound s now i :
+  core_inv (k_core s) -> c_seeded (k_core s) = true ->
+  let s' := link_step s now i in
+  let t := c_target (k_core s) in let t' := c_target (k_core s') in
+  t' * 1000 <= t * 1060 /\ (t < t' -> t' <= 2 * observed_bps i).
+Proof.
+  intros (Hrange & _) Hsd. cbv zeta.
+  destruct (link_step_shape s now i) as [_ Hshape]. cbv zeta in Hshape.
+  destruct Hshape as [(_ & Ec & _)|(_ & (ns & md & fr & Hns & Ec) & _)]; rewrite Ec; cbn [c_target].
+  - uconst. lia.
+  - apply new_target_growth; assumption.
+Qed.
+
+(** [loss_high_since_ms <> 0] always means the average is above the entry threshold *)
+Definition latch_inv (l : latch) : Prop :=
+  l_high_since l <> 0 -> f_lt FConstants.LOSS_DEGRADE_ENTER (l_ewma l) = true.
+
+Lemma latch_inv_update l e now : latch_inv (update_loss_ewma l e now).
+Proof.
+  unfold latch_inv, update_loss_ewma.
+  destruct (f_lt FConstants.LOSS_DEGRADE_ENTER e) eqn:Eh.
+  - destruct (_ =? 0); [intros _; exact Eh|]. destruct (_ <=? _); intros _; exact Eh.
+  - destruct (f_lt e _); cbn; intro H; contradiction.
+Qed.
+
+Lemma latch_inv_step s now i : latch_inv (k_latch s) -> latch_inv (k_latch (link_step s now i)).
+Proof.
+  intro H. destruct (link_step_shape s now i) as [_ Hshape]. cbv zeta in Hshape.
+  destruct Hshape as [(_ & _ & El)|(_ & _ & El)]; rewrite El; [exact H|apply latch_inv_update].
+Qed.
+
+Lemma loss_latch_step s now i :
+  let s' := link_step s now i in
+  let l := k_latch s in let l' := k_latch s' in
+  (l_degraded l = false -> l_degraded l' = true ->
+     f_lt FConstants.LOSS_DEGRADE_ENTER (i_lewma i) = true /\ l_high_since l <> 0 /\
+     LOSS_DEGRADE_SUSTAIN_MS <= now - l_high_since l) /\
+  (l_degraded l = true -> l_degraded l' = false ->
+     f_lt (i_lewma i) FConstants.LOSS_DEGRADE_CLEAR = true) /\
+  (l_high_since l' = l_high_since l \/ l_high_since l' = 0 \/ (l_high_since l = 0 /\ l_high_since l' = now)).
+Proof.
+  cbv zeta. destruct (link_step_shape s now i) as [_ Hshape]. cbv zeta in Hshape.
+  destruct Hshape as [(_ & _ & El)|(_ & _ & El)]; rewrite El.
+  - split; [intros; congruence|]. split; [intros; congruence|left; reflexivity].
+  - unfold update_loss_ewma.
+    destruct (f_lt FConstants.LOSS_DEGRADE_ENTER (i_lewma i)) eqn:Eh.
+    + destruct (l_high_since (k_latch s) =? 0) eqn:E0; cbn [l_degraded l_high_since].
+      * split; [intros; congruence|]. split; [intros; congruence|]. right; right. split; [lia|reflexivity].
+      * destruct (LOSS_DEGRADE_SUSTAIN_MS <=? ssub now (l_high_since (k_latch s))) eqn:Es; cbn [l_degraded l_high_since].
+        -- split; [intros _ _; split; [reflexivity|split; [lia|unfold ssub in Es; uconst; lia]]|].
+           split; [intros; congruence|left; reflexivity].
+        -- split; [intros; congruence|]. split; [intros; congruence|left; reflexivity].
+    + destruct (f_lt (i_lewma i) FConstants.LOSS_DEGRADE_CLEAR) eqn:Ec; cbn [l_degraded l_high_since].
+      * split; [intros; congruence|]. split; [intros; reflexivity|right; left; reflexivity].
+      * split; [intros; congruence|]. split; [intros; congruence|right; left; reflexivity].
+Qed.
+
+(** everything the controller holds after any history satisfies the link invariants *)
+Definition full_inv (s : link) : Prop := link_inv s /\ latch_inv (k_latch s).
+
+Lemma full_inv_after ops : ctrl_all full_inv (ctrl_after ops).
+Proof.
+  apply ctrl_all_after.
+  - split; [apply link_inv_default|]. intro H. cbn in H. contradiction.
+  - intros s now i [H1 H2]. split; [apply link_inv_step, H1|apply latch_inv_step, H2].
+Qed.
